@@ -12,19 +12,25 @@ From Verif Require Import c01vm2.Syntax c01vm2.Code.
 Import ListNotations.
 
 (* what a name is bound to at compile time (scopeinfo.variables / scopeinfo.funcs, innermost first): a value
-   variable ($x: its slot), a defined function (the pc of its opscope) *)
-Inductive cbind := CV (y : var) | CF (p : nat).
-Record cenv := { ce_env : list (N * cbind); ce_lbls : list (lname * var) }.
-Definition ce_empty : cenv := {| ce_env := []; ce_lbls := [] |}.
+   variable ($x: its slot), a defined function (the pc of its opscope and its number of parameters), a filter
+   parameter (the slot that holds the closure) *)
+Inductive cbind := CV (y : var) | CF (p argc : nat) | CP (y : var).
+(* ce_ghost is not used by the compiler: the proofs record there the addresses the environments of the closures
+   bound in ce_env depend on *)
+Record cenv := { ce_env : list (N * cbind); ce_lbls : list (lname * var); ce_ghost : nat -> Prop }.
+Definition ce_empty : cenv := {| ce_env := []; ce_lbls := []; ce_ghost := fun _ => False |}.
 Definition add_var (ce : cenv) (x : vname) (k : var) : cenv :=
-  {| ce_env := (x, CV k) :: ce_env ce; ce_lbls := ce_lbls ce |}.
+  {| ce_env := (x, CV k) :: ce_env ce; ce_lbls := ce_lbls ce; ce_ghost := ce_ghost ce |}.
 Definition add_lbl (ce : cenv) (l : lname) (k : var) : cenv :=
-  {| ce_env := ce_env ce; ce_lbls := (l, k) :: ce_lbls ce |}.
-Definition add_fun (ce : cenv) (f : fname) (p : nat) : cenv :=
-  {| ce_env := (f, CF p) :: ce_env ce; ce_lbls := ce_lbls ce |}.
-(* the body of a function definition sees the names visible at the definition; in this model it sees no label
-   (a break out of a function body to a label around the definition is outside the fragment) *)
-Definition fun_env (ce : cenv) : cenv := {| ce_env := ce_env ce; ce_lbls := [] |}.
+  {| ce_env := ce_env ce; ce_lbls := (l, k) :: ce_lbls ce; ce_ghost := ce_ghost ce |}.
+Definition add_fun (ce : cenv) (f : fname) (p argc : nat) : cenv :=
+  {| ce_env := (f, CF p argc) :: ce_env ce; ce_lbls := ce_lbls ce; ce_ghost := ce_ghost ce |}.
+Definition add_env (ce : cenv) (l : list (N * cbind)) : cenv :=
+  {| ce_env := l ++ ce_env ce; ce_lbls := ce_lbls ce; ce_ghost := ce_ghost ce |}.
+(* the body of a function definition (and a closure passed to a user-defined function) sees the names visible
+   at the definition; in this model it sees no label (a break out of a function body to a label around the
+   definition is outside the fragment) *)
+Definition fun_env (ce : cenv) : cenv := {| ce_env := ce_env ce; ce_lbls := []; ce_ghost := ce_ghost ce |}.
 
 Fixpoint lookup_cv (x : vname) (l : list (N * cbind)) : option var :=
   match l with
@@ -32,17 +38,54 @@ Fixpoint lookup_cv (x : vname) (l : list (N * cbind)) : option var :=
   | (y, CV k) :: r => if N.eqb x y then Some k else lookup_cv x r
   | _ :: r => lookup_cv x r
   end.
-Fixpoint lookup_cf (f : fname) (l : list (N * cbind)) : option nat :=
+(* compileFunc: a function f/argc, or (argc = 0) a filter parameter named f; innermost first *)
+Fixpoint lookup_cf (f : fname) (argc : nat) (l : list (N * cbind)) : option cbind :=
   match l with
   | [] => None
-  | (g, CF p) :: r => if N.eqb f g then Some p else lookup_cf f r
-  | _ :: r => lookup_cf f r
+  | (g, CF p n) :: r => if N.eqb f g && Nat.eqb n argc then Some (CF p n) else lookup_cf f argc r
+  | (g, CP y) :: r => if N.eqb f g && Nat.eqb argc 0 then Some (CP y) else lookup_cf f argc r
+  | _ :: r => lookup_cf f argc r
   end.
 (* every slot visible at compile time belongs to a scope created before scope id sn (a sanity check of the
    model: scope ids are allocated in increasing order) *)
 Definition ce_lt (ce : cenv) (sn : nat) : bool :=
-  forallb (fun e => match snd e with CV y => Nat.ltb (fst y) sn | CF _ => true end) (ce_env ce) &&
+  forallb (fun e => match snd e with CV y | CP y => Nat.ltb (fst y) sn | CF _ _ => true end) (ce_env ce) &&
   forallb (fun e => Nat.ltb (fst (snd e)) sn) (ce_lbls ce).
+
+(* compileFuncDef with parameters: the input is stored in slot 0 of the new scope, the closures of the parameters
+   in slots 1..n; every $x parameter is then evaluated (load v; load closure; callpc) and stored in a further slot *)
+Fixpoint pv_params (ps : list param) (i : nat) : list (nat * vname) :=
+  match ps with
+  | [] => []
+  | PV x :: r => (i, x) :: pv_params r (S i)
+  | PF _ :: r => pv_params r (S i)
+  end.
+Fixpoint pf_env (sn : nat) (ps : list param) (i : nat) : list (N * cbind) :=     (* innermost (last) first *)
+  match ps with
+  | [] => []
+  | PF g :: r => pf_env sn r (S i) ++ [(g, CP (sn, S i))]
+  | PV _ :: r => pf_env sn r (S i)
+  end.
+Fixpoint pv_env (sn n : nat) (pvs : list (nat * vname)) (j : nat) : list (N * cbind) :=
+  match pvs with
+  | [] => []
+  | (_, x) :: r => pv_env sn n r (S j) ++ [(x, CV (sn, S n + j))]
+  end.
+Fixpoint pv_code (sn n : nat) (pvs : list (nat * vname)) (j : nat) : list instr :=
+  match pvs with
+  | [] => []
+  | (i, _) :: r => [Iload (sn, 0); Iexpbegin; Iload (sn, S i); Icallpc; Istore (sn, S n + j); Iexpend] ++ pv_code sn n r (S j)
+  end.
+Definition prelude (sn : nat) (ps : list param) : list instr :=
+  match ps with
+  | [] => []
+  | _ => Istore (sn, 0) :: map (fun i => Istore (sn, S i)) (seq 0 (length ps)) ++
+         pv_code sn (length ps) (pv_params ps 0) 0 ++ [Iload (sn, 0)]
+  end.
+Definition param_slots (ps : list param) : nat :=
+  match ps with [] => 0 | _ => S (length ps) + length (pv_params ps 0) end.
+Definition param_env (sn : nat) (ps : list param) : list (N * cbind) :=
+  pv_env sn (length ps) (pv_params ps 0) 0 ++ pf_env sn ps 0.
 
 Definition mainscope : nat := 1.       (* the builtin scope has id 0 *)
 
@@ -80,7 +123,26 @@ Definition is_const1 (l : list instr) : option jv := match l with [Iconst x] => 
    returns the code, the new variablecnt of scope cur and the new scopecnt *)
 Definition res := option (list instr * nat * nat).
 
-Fixpoint comp (q : query) (ce : cenv) (cur pc nv sn : nat) : res :=
+(* the arguments of a call of a user-defined function, from the last to the first: each one a function definition
+   (jump over it; opscope; body; opret) followed by pushpc.  C compiles the body of an argument in a new scope *)
+Section Args.
+Variable C : query -> nat -> nat -> res.
+Fixpoint comp_args (l : list query) (p sn : nat) : option (list instr * nat * nat) :=
+  match l with
+  | [] => Some ([], p, sn)
+  | a :: r =>
+      match comp_args r p sn with
+      | Some (cr, p', s') =>
+          match C a s' p' with
+          | Some (cb, nvc, s1) =>
+              let blk := Ijump (p' + 2 + length cb + 1) :: Iscope s' nvc 0 :: cb ++ [Iret; Ipushpc (S p')] in
+              Some (cr ++ blk, p' + length blk, s1)
+          | None => None end
+      | None => None end
+  end.
+End Args.
+
+Fixpoint comp (q : query) (ce : cenv) (cur pc nv sn : nat) {struct q} : res :=
   let V := fun k : nat => (cur, k) in
   match q with
   | QId => Some ([], nv, sn)
@@ -257,27 +319,34 @@ Fixpoint comp (q : query) (ce : cenv) (cur pc nv sn : nat) : res :=
       | None => None end
       else None
   | QDef f ps body rest =>
-      (* compileFuncDef: jump over the definition; funcs += {f, pc of opscope}; a new scope; opscope (lazy);
-         the body; opret.  Then the rest of the query, in the current scope, with f visible *)
-      match ps with
-      | [] =>
-          if Nat.ltb cur sn && ce_lt ce sn then
-          let ce' := add_fun ce f (S pc) in
-          match comp body (fun_env ce') sn (pc + 2) 0 (S sn) with
-          | Some (cb, nvb, s1) =>
-              let l := pc + 2 + length cb + 1 in
-              match comp rest ce' cur l nv s1 with
-              | Some (cr, nv', s2) => Some (Ijump l :: Iscope sn nvb 0 :: cb ++ Iret :: cr, nv', s2)
-              | None => None end
+      (* compileFuncDef: jump over the definition; funcs += {f, pc of opscope, argcnt}; a new scope; opscope (lazy);
+         the parameters; the body; opret.  Then the rest of the query, in the current scope, with f visible *)
+      if Nat.ltb cur sn && ce_lt ce sn then
+      let ce' := add_fun ce f (S pc) (length ps) in
+      let pre := prelude sn ps in
+      match comp body (add_env (fun_env ce') (param_env sn ps)) sn (pc + 2 + length pre) (param_slots ps) (S sn) with
+      | Some (cb, nvb, s1) =>
+          let l := pc + 2 + length pre + length cb + 1 in
+          match comp rest ce' cur l nv s1 with
+          | Some (cr, nv', s2) => Some (Ijump l :: Iscope sn nvb (length ps) :: pre ++ cb ++ Iret :: cr, nv', s2)
           | None => None end
-          else None
-      | _ => None
-      end
+      | None => None end
+      else None
   | QCallF f args =>
-      match args with
-      | [] => match lookup_cf f (ce_env ce) with
-              | Some p => Some ([Icallf p], nv, sn)      (* compileCallPc with no argument: opcall pc *)
+      match lookup_cf f (length args) (ce_env ce) with
+      | Some (CP y) => Some ([Iload y; Icallpc], nv, sn)        (* a filter parameter: load the closure; callpc *)
+      | Some (CF p _) =>
+          match args with
+          | [] => Some ([Icallf p], nv, sn)                     (* compileCallPc with no argument: opcall pc *)
+          | _ =>
+              (* compileCallInternal(pc, args, internal = false): store v; for the arguments from the last to the
+                 first: the argument as a function definition, pushpc; load v; opcall pc *)
+              if Nat.ltb cur sn && ce_lt ce sn then
+              match comp_args (fun a s' p' => comp a (fun_env ce) s' (p' + 2) 0 (S s')) args (S pc) sn with
+              | Some (cas, _, s2) => Some (Istore (V nv) :: cas ++ [Iload (V nv); Icallf p], S nv, s2)
               | None => None end
+              else None
+          end
       | _ => None
       end
   end.
